@@ -382,8 +382,7 @@ func runEcho(c *runner.Ctx, ec *echoCfg) *echoResult {
 		wmu.Unlock()
 	})
 	defer gocql.VerifSetWriteObserver(nil)
-	ctl := perturb.Install(ec.seed, ec.intensity, 2*time.Millisecond)
-	ctl.Activity = &c.Activity
+	ctl := perturb.Install(ec.seed, ec.intensity, 2*time.Millisecond, &c.Activity)
 	defer perturb.Uninstall()
 	cfg := newCfg(cl, ec.version)
 	cfg.Timeout = ec.timeout
